@@ -1828,6 +1828,8 @@ retry:
   case COAP_ENC_ASCII:
     value->u.value_bin =
         coap_new_bin_const((const uint8_t *)begin, end - begin);
+    if (value->u.value_bin == NULL)
+      goto bad_entry;
     break;
   case COAP_ENC_HEX:
     /* Parse the hex into binary */
